@@ -2253,10 +2253,92 @@ func checkMidLineReset(c *Ctx, p *core.Prog) {
 // checkMarkerTableDecides: R06.8. The property lists "1.", "a)", "iv.", "3.1." as markers: the closing character is
 // any of those the marker test dispatches on, for table markers as for numbers. So once the word (without its closing
 // character) is found in the list-marker table, the test answers yes - no further condition on the closing character.
+// markerWords reads the words of the list-marker table where they are constants: the keys of a map literal, or the
+// pieces of a constant string that the table is split from.
+func markerWords(p *core.Prog, g *ssa.Global) (map[string]bool, bool) {
+	if tab, ok := globalMapLiteral(p, v2pkg, g.Name()); ok && len(tab) > 0 {
+		out := map[string]bool{}
+		for k := range tab {
+			out[k] = true
+		}
+		return out, true
+	}
+	// built by an initialiser function: strings.Split / strings.Fields of a constant
+	out := map[string]bool{}
+	for _, fn := range append(p.SrcFuncs(v2pkg), p.InitFuncs(v2pkg)...) {
+		isInit := fn.Name() == "init" || strings.HasPrefix(fn.Name(), "init$") || strings.HasPrefix(fn.Name(), "init#")
+		stores := false
+		for _, b := range fn.Blocks {
+			for _, in := range b.Instrs {
+				if st, ok := in.(*ssa.Store); ok && st.Addr == ssa.Value(g) {
+					stores = true
+				}
+			}
+		}
+		if !stores && !isInit {
+			continue
+		}
+		for _, f := range append([]*ssa.Function{fn}, fn.AnonFuncs...) {
+			for _, call := range core.CallsIn(f) {
+				n := core.StaticCalleeName(call.Common())
+				if n != "strings.Split" && n != "strings.Fields" {
+					continue
+				}
+				if sv, ok := core.ConstString(call.Common().Args[0]); ok && len(sv) > 20 {
+					for _, w := range strings.Fields(sv) {
+						out[w] = true
+					}
+				}
+			}
+		}
+	}
+	return out, len(out) > 0
+}
+
+// romanValue: the value of a lower-case roman numeral in canonical form (1..39), or 0.
+func romanValue(s string) int {
+	canon := []string{"", "i", "ii", "iii", "iv", "v", "vi", "vii", "viii", "ix"}
+	for tens := 0; tens <= 3; tens++ {
+		for ones := 0; ones <= 9; ones++ {
+			if tens == 0 && ones == 0 {
+				continue
+			}
+			if strings.Repeat("x", tens)+canon[ones] == s {
+				return tens*10 + ones
+			}
+		}
+	}
+	return 0
+}
+
 func checkMarkerTableDecides(c *Ctx, p *core.Prog) {
 	g := p.Global(v2pkg, "listMarker")
 	if !c.R.Anchor(g != nil, "v2.listMarker") {
 		return
+	}
+	// R06.13: the roman numerals of the table form a range without holes: a list that is numbered i. ii. ... runs through
+	// every numeral up to its length
+	if words, ok := markerWords(p, g); ok {
+		have := map[int]bool{}
+		max := 0
+		for w := range words {
+			if v := romanValue(w); v > 0 {
+				have[v] = true
+				if v > max {
+					max = v
+				}
+			}
+		}
+		var missing []string
+		for v := 1; v <= max; v++ {
+			if !have[v] {
+				missing = append(missing, fmt.Sprint(v))
+			}
+		}
+		c.R.Check(len(missing) == 0 && max >= 5, "R06.13", "the roman numerals of the list-marker table run from i to their maximum without a hole", p.Pos(g.Pos()),
+			fmt.Sprintf("numerals 1..%d all present", max), "the table has roman numerals up to "+fmt.Sprint(max)+" but not "+strings.Join(missing, ", ")+": that item of a numbered list keeps its marker as a word and the text no longer matches")
+	} else {
+		c.R.Info("R06.13", "list-marker table", p.Pos(g.Pos()), "the words of the table are not constants of the initialiser: not read")
 	}
 	n := 0
 	for _, fn := range v2Funcs(p) {
